@@ -341,7 +341,8 @@ def gen_addmm_linear(ctx, dat):
     cases = []
     seed = 0
     bc = [((2, 3), (3, 2)), ((1, 3), (3, 3)), ((3, 1), (1, 2)), ((2, 2, 3), (3, 2)), ((2, 3), (2, 3, 1)), ((2, 1, 3), (1, 3, 2)),
-          ((3, 2, 2), (1, 2, 3)), ((2, 2), (2,)), ((2,), (2, 3)), ((3,), (3,)), ((2, 3), (2, 2)), ((3, 3), (3,)), ((1, 1), (1,))]
+          ((3, 2, 2), (1, 2, 3)), ((2, 2), (2,)), ((2,), (2, 3)), ((3,), (3,)), ((2, 3), (2, 2)), ((3, 3), (3,)), ((1, 1), (1,)),
+          ((2, 2, 3), (3,)), ((3,), (2, 3, 2)), ((2, 1, 2, 3), (3,)), ((2,), (3, 1, 2, 2)), ((1,), (1,)), ((2,), (3,))]
     for sb, sc in bc:
         np = _impl().np
         try:
@@ -441,6 +442,8 @@ def gen_same_operand(ctx, dat):
           {"op": "addmm", "operands": [dat.arr((2,)), dat.arr((2, 3), lo=-9, hi=9), dat.arr((3, 2), lo=-9, hi=9)]},
           {"op": "linear", "operands": [dat.arr((2, 2, 3), lo=-9, hi=9), dat.arr((2, 3), lo=-9, hi=9), dat.arr((2,))]},
           {"op": "linear", "operands": [dat.arr((2, 3), lo=-9, hi=9), dat.arr((2, 3), lo=-9, hi=9)]},
+          {"op": "linear", "operands": [dat.arr((3,), lo=-9, hi=9), dat.arr((2, 3), lo=-9, hi=9), dat.arr((2,))]},
+          {"op": "addmm", "operands": [dat.arr((2,)), dat.arr((2, 3), lo=-9, hi=9), dat.arr((3,), lo=-9, hi=9)]},
           {"op": "concat", "operands": [dat.arr((2, 3)), dat.arr((1, 3))], "args": {"dim": 0}},
           {"op": "stack", "operands": [dat.arr((2,)), dat.arr((2,))], "args": {"dim": 1}},
           {"op": "unbind", "operands": [dat.arr((2, 3))], "args": {"dim": -1}},
